@@ -35,10 +35,11 @@ import (
 // ---------------------------------------------------------------------------------
 // universe
 
-// field paths: two nested ones shaped like kvgraph's "<graph>.v.label" and
-// "<graph>.v.<Label>.<key>" (they share the prefix g.v), and one top-level path as the
-// aggregation processors use.
-var fieldPaths = []string{"g.v.label", "g.v.A.k", "h"}
+// field paths: nested ones shaped like kvgraph's "<graph>.v.label" and
+// "<graph>.v.<Label>.<key>" (they share the prefix g.v; the name of the last one extends the
+// name of the second byte-wise, like the indexed properties age / age_group of one label),
+// and one top-level path as the aggregation processors use.
+var fieldPaths = []string{"g.v.label", "g.v.A.k", "h", "g.v.A.kk"}
 
 // document ids: one id is a prefix of another
 var docIDs = []string{"d0", "d1", "d10", "d2", "e"}
@@ -144,11 +145,11 @@ func tkLess(a, b tk) bool {
 // DocIn is one document: its id and its value at each of the three field paths.
 type DocIn struct {
 	ID int     `json:"id"`
-	T  [3]Term `json:"t"`
+	T  [4]Term `json:"t"`
 }
 
 func (d DocIn) String() string {
-	return fmt.Sprintf("%s{%s:%s %s:%s %s:%s}", docIDs[d.ID], fieldPaths[0], d.T[0], fieldPaths[1], d.T[1], fieldPaths[2], d.T[2])
+	return fmt.Sprintf("%s{%s:%s %s:%s %s:%s %s:%s}", docIDs[d.ID], fieldPaths[0], d.T[0], fieldPaths[1], d.T[1], fieldPaths[2], d.T[2], fieldPaths[3], d.T[3])
 }
 
 // Op kinds:
@@ -214,9 +215,12 @@ func wellFormed(c Case) error {
 			if len(o.Docs) == 0 || (o.Op == "adddoc" && len(o.Docs) != 1) {
 				return fmt.Errorf("bad doc list in %q", o.Op)
 			}
-			for _, d := range o.Docs {
+			for i, d := range o.Docs {
 				if d.ID < 0 || d.ID >= len(docIDs) {
 					return fmt.Errorf("bad doc index in %q", o.Op)
+				}
+				if d.T[1].K == "nomap" {
+					o.Docs[i].T[3] = Term{K: "absent"} // A is not a map: A.kk cannot exist
 				}
 				for _, t := range d.T {
 					if t.I < 0 {
@@ -250,6 +254,22 @@ func buildDoc(d DocIn, ns string) map[string]interface{} {
 	case d.T[1].K == "nomap":
 		v["A"] = "not-a-map" // the path g.v.A.k cannot be followed
 	}
+	if d.T[1].K != "nomap" { // (normalised: T[3] is absent when A is not a map)
+		a, _ := v["A"].(map[string]interface{})
+		if x, ok := d.T[3].value(); ok {
+			if a == nil {
+				a = map[string]interface{}{}
+				v["A"] = a
+			}
+			a["kk"] = x
+		} else if d.T[3].K == "null" {
+			if a == nil {
+				a = map[string]interface{}{}
+				v["A"] = a
+			}
+			a["kk"] = nil
+		}
+	}
 	if x, ok := d.T[2].value(); ok {
 		root[ns+"h"] = x
 	} else if d.T[2].K == "null" {
@@ -267,7 +287,7 @@ func buildDoc(d DocIn, ns string) map[string]interface{} {
 // existing data": documents older than the registration are not indexed for it).
 
 type spec struct {
-	fields [3]bool
+	fields [4]bool
 	live   map[int]map[int]tk // doc -> field -> indexed term
 	docs   map[int]DocIn      // doc -> content it was last added with
 }
@@ -389,7 +409,7 @@ type fterm struct {
 
 type sim struct {
 	bugs    uint
-	fields  [3]bool
+	fields  [4]bool
 	entries map[ent]bool
 	terms   map[fterm]uint64 // term key present; 0 = count invalidated
 	docs    map[int][]ent    // per-document entry list ("D" keys)
@@ -960,9 +980,9 @@ type judgeRun struct {
 	sims   map[uint]*sim
 	fs     []finding
 	info   caseInfo
-	probes [3][]tk // terms probed with GetTermMatch, per field
+	probes [4][]tk // terms probed with GetTermMatch, per field
 	step   int
-	ever   [3]bool // field registered at some point
+	ever   [4]bool // field registered at some point
 	seen   map[string]bool
 	// set after a document removal / replacement (non-triviality rule)
 	afterChange bool
@@ -1019,8 +1039,8 @@ func (j *judgeRun) explain(query, actual, want string, pred func(*sim) string, w
 // probeTerms: for each field every term some document of the case carries at that field
 // (-0 and +0 both, as soon as one of them occurs), plus one string and one number no
 // document carries.
-func probeTerms(c Case) [3][]tk {
-	var res [3][]tk
+func probeTerms(c Case) [4][]tk {
+	var res [4][]tk
 	for f := range fieldPaths {
 		seen := map[tk]bool{}
 		var out []tk
@@ -1260,7 +1280,7 @@ func (j *judgeRun) observe(only int) {
 			}
 		}
 		// --- GetTermMatch for every probe term
-		limited := [3]bool{}
+		limited := [4]bool{}
 		for _, k := range j.probes[f] {
 			if only >= 0 {
 				break
